@@ -658,6 +658,16 @@ fn c11_grammar<V: VirtualFileSystem>(v: &V, backend: &str, root: &str, ctx: &Ctx
                 ("got", J::s(format!("{} mode {:o}", if r.is_ok() { "Ok" } else { "Err" }, m1))),
             ])
         };
+        if rep.want_sample() && shape.starts_with("double") && kind != "link" {
+            rep.sample(J::obj(vec![
+                ("backend", J::s(backend)),
+                ("entry", J::s(kind)),
+                ("expression", J::s(expr)),
+                ("start_mode", J::s(format!("{:o}", m0))),
+                ("mode_after", J::s(format!("{:o}", m1))),
+                ("reference", J::s(format!("{:?}", expect.as_ref().map(|m| format!("{:o}", m))))),
+            ]));
+        }
         match expect {
             Ok(e) => {
                 if r.is_err() {
